@@ -30,7 +30,7 @@ LAYOUT_FLAGS = {1: "prop:characters-not-covered-once-in-order", 2: "tie:lines!=b
                 64: "prop:alignment", 128: "prop:justified-line-neither-at-width-nor-unstretched", 256: "prop:newline-does-not-start-line",
                 512: "prop:Bounds/Heights-do-not-enclose", 1024: "prop:panic-or-non-finite",
                 2048: "known:alignment-off-by-dropped-trailing-whitespace", 4096: "known:alignment-in-overflow-run", 8192: "known:justify-in-overflow-run"}
-TEXTLINE_FLAGS = {1: "tie:NewTextLine-placement", 16: "prop:spans-overlap", 64: "prop:alignment", 1024: "prop:panic"}
+TEXTLINE_FLAGS = {1: "tie:NewTextLine-placement", 4: "prop:characters-not-covered-once-in-order(NewTextLine)", 16: "prop:spans-overlap", 64: "prop:alignment", 1024: "prop:panic"}
 ITEMS_FLAGS = {1: "tie:GlyphsToItems", 2: "prop:Size-partition", 1024: "prop:panic"}
 REORDER_FLAGS = {1: "tie:reorderSpans", 1024: "prop:panic"}
 FLAGS = {0: LAYOUT_FLAGS, 1: TEXTLINE_FLAGS, 2: ITEMS_FLAGS, 3: REORDER_FLAGS}
